@@ -2349,6 +2349,30 @@ fn cases_for_state(world: &World, ctx: &Ctx, state: &str, seed: u64, thorough: b
             g.out.push(Case { steps, kind: format!("{}+disconnect+reconnect", first.kind) });
         }
     }
+    // boundary sequences of the filter protocol: the agreed filter hashes end just before / at /
+    // after the filtered height, then the batch that follows the filtered height arrives
+    if let Some(id) = ctx.chains.get(&target) {
+        let chain = world.chain(*id);
+        let min_f = ctx.node.i().storage.get_min_filtered_block_number();
+        let (fin_idx, _) = ctx.node.i().storage.get_last_check_point();
+        let fin = fin_idx as u64 * ctx.interval;
+        if !ctx.node.i().storage.is_filter_scripts_empty() && min_f > fin + 2 && min_f + 2 < chain.tip_number() {
+            for l in [min_f - fin - 2, min_f - fin - 1, min_f - fin, min_f - fin + 1] {
+                let hashes: Vec<Byte32> = (fin + 1..=fin + l).map(|n| chain.filter_hashes[n as usize].clone()).collect();
+                let hm = packed::BlockFilterHashes::new_builder()
+                    .start_number((fin + 1).pack())
+                    .parent_block_filter_hash(chain.filter_hashes[fin as usize].clone())
+                    .block_filter_hashes(hashes.pack())
+                    .build();
+                if let Some(fm) = server::get_block_filters(chain, &packed::GetBlockFilters::new_builder().start_number((min_f + 1).pack()).build()) {
+                    g.out.push(Case {
+                        steps: vec![Step::Msg(Proto::Filter, target, filter_msg(hm)), Step::Msg(Proto::Filter, target, filter_msg(fm))],
+                        kind: format!("BlockFilterHashes:up-to-min-filtered{:+}->BlockFilters", l as i64 - (min_f - fin) as i64),
+                    });
+                }
+            }
+        }
+    }
     g.unsolicited(target, ctx.interval);
     g.scratch(target);
     // control sequences
